@@ -247,6 +247,7 @@ class HResult:
     program_size: int = 0
     vccs: int = 0
     bound_failed: bool = False
+    unknown_n: int = 0
 
 
 class Ctx:
@@ -422,6 +423,7 @@ def run_harness(ctx, h):
         else:
             res.failed.append(item)
     res.witness_ok = wit_total > 0 and wit_failed == wit_total
+    res.unknown_n = len(unknown)
     if nobody:
         # a reachable call without a body silently returns nondet: never accept that implicitly
         res.status, res.note = "error", "reachable functions without body (add the real source or an explicit stub): " + ",".join(sorted(set(nobody)))
@@ -676,6 +678,15 @@ def run_property(pid, harnesses, tier, seed, level="model_checking", assumptions
             r.status = "hold" if r.witness_ok else "vacuous"
             if r.status == "vacuous":
                 broken.append((h.name, "vacuous", "witness unreachable"))
+    # soundness of the 'only UB / known findings failed' paths: every other obligation must have been DECIDED and the
+    # reachability witness must have been reached
+    for r in results:
+        if r.status in ("hold", "hold-ub", "known") and getattr(r, "unknown_n", 0) > 0:
+            r.status = "inconclusive"
+            inconclusive.append((r.h.name, "%d obligations left undecided (status UNKNOWN) next to failing UB/known items" % r.unknown_n))
+        elif r.status == "hold-ub" and not r.witness_ok:
+            r.status = "vacuous"
+            broken.append((r.h.name, "vacuous", "witness unreachable"))
     # a listed known finding whose harness no longer fails is fine (maybe fixed) - nothing printed.
 
     for l in sorted(set(known_lines)):
